@@ -30,6 +30,32 @@ func (g *gtrans) checkNoAliasCopy(e *genv, rhs ast.Expr) {
 		} else if _, isG := g.gl.cfg.bigGlobals[x.Name]; isG {
 			g.fail(rhs, "copy of the package-level pointer %s (unsupported)", x.Name)
 		}
+	case *ast.CallExpr:
+		// w := vv.Mod(..) / w := z.Set(x): the pointer result IS the receiver (or a
+		// parameter); v.Bits() shares v's storage: accepted only if v is never written
+		if sel, ok := x.Fun.(*ast.SelectorExpr); ok && g.kindOf(e, sel.X) == kBig {
+			switch sel.Sel.Name {
+			case "Cmp", "BitLen", "Bit", "Sign":
+			case "Bits":
+				if id, ok := unparen(sel.X).(*ast.Ident); ok {
+					if v := e.lookup(id.Name); v != nil {
+						for _, w := range g.assignedOuter(g.fd.Body.List, e) {
+							if w == v {
+								g.fail(rhs, "%s.Bits() is kept in a variable while %s is written in this function (shared storage)", v.name, v.name)
+							}
+						}
+						break
+					}
+				}
+				g.fail(rhs, "Bits() of something that is not a variable kept in a variable (unsupported)")
+			default:
+				g.fail(rhs, "the pointer result of big.Int.%s kept in a variable (it aliases the receiver; unsupported)", sel.Sel.Name)
+			}
+		} else if k := g.kindOf(e, x); k == kElem || k == kBig {
+			if s := g.calleeSummary(e, x); s != nil && s.retAlias != "" {
+				g.fail(rhs, "the pointer result of %s kept in a variable (it aliases %s; unsupported)", s.key, s.retAlias)
+			}
+		}
 	case *ast.UnaryExpr:
 		if x.Op == token.AND {
 			g.fail(rhs, "a variable that holds an address (unsupported)")
@@ -37,6 +63,25 @@ func (g *gtrans) checkNoAliasCopy(e *genv, rhs ast.Expr) {
 	case *ast.SliceExpr:
 		g.fail(rhs, "a variable that holds a slice of another variable (unsupported)")
 	}
+}
+
+// calleeSummary: the summary of the repo function / Element method called by x (nil: none).
+func (g *gtrans) calleeSummary(e *genv, x *ast.CallExpr) *gsum {
+	switch f := x.Fun.(type) {
+	case *ast.Ident:
+		if e.lookup(f.Name) == nil {
+			if _, ok := g.p.funcs[f.Name]; ok {
+				return g.gl.summaryOf(f.Name, g, x)
+			}
+		}
+	case *ast.SelectorExpr:
+		if g.kindOf(e, f.X) == kElem {
+			if _, ok := g.p.funcs["Element."+f.Sel.Name]; ok {
+				return g.gl.summaryOf("Element."+f.Sel.Name, g, x)
+			}
+		}
+	}
+	return nil
 }
 
 // checkNotParamSlice: an element of the slice v is about to be written.
